@@ -332,8 +332,20 @@ func rtShutdownHeldScenario(lease time.Duration) rtResult {
 // rtTransientsScenario: isolated transient renewal errors over a long hold (the 2nd, 4th and 6th renewal call fail
 // once each, every other one succeeds): the record must be there all the time and a contender stays out.
 func rtTransientsScenario(lease time.Duration) rtResult {
-	res := rtResult{name: fmt.Sprintf("transients lease=%v", lease)}
-	st := &rtStore{Storage: inmem.New(), failSet: map[int32]bool{2: true, 4: true, 6: true}}
+	return rtTransientsWith(lease, "transients", map[int32]bool{2: true, 4: true, 6: true})
+}
+
+// rtBurstScenario: twice the storage refuses TWO renewal calls in a row (nothing applied) and then answers again
+// a quarter of a lease before the record would lapse (retries come every lease/8; the lease is doubled here to
+// keep that margin comfortable on a loaded machine): the holder must keep its lock — a bounded number of
+// attempts per renewal would let the record lapse although the storage has recovered.
+func rtBurstScenario(lease time.Duration) rtResult {
+	return rtTransientsWith(2*lease, "burst", map[int32]bool{2: true, 3: true, 6: true, 7: true})
+}
+
+func rtTransientsWith(lease time.Duration, name string, fails map[int32]bool) rtResult {
+	res := rtResult{name: fmt.Sprintf("%s lease=%v", name, lease)}
+	st := &rtStore{Storage: inmem.New(), failSet: fails}
 	ph := dist.NewKvsLockProvider(st, "/rt/")
 	pt := dist.NewKvsLockProvider(st, "/rt/")
 	dist.VerifSetLease(ph, lease)
@@ -345,14 +357,14 @@ func rtTransientsScenario(lease time.Duration) rtResult {
 	h.Lock()
 	t0 := time.Now()
 	bg := context.Background()
-	for time.Since(t0) < 5*lease && atomic.LoadInt32(&st.casCalls) < 9 {
+	for time.Since(t0) < 5*lease && atomic.LoadInt32(&st.casCalls) < 11 {
 		if third.TryLock(bg) {
-			res.bad = fmt.Sprintf("a contender acquired the lock %v after the holder did, while the holder (alive; isolated transient renewal errors, each followed by a success) still held it; renewal calls=%d ok=%d", time.Since(t0).Round(time.Millisecond), atomic.LoadInt32(&st.casCalls), atomic.LoadInt32(&st.casOK))
+			res.bad = fmt.Sprintf("a contender acquired the lock %v after the holder did, while the holder (alive; transient renewal errors, the storage answering again well within the lease) still held it; renewal calls=%d ok=%d", time.Since(t0).Round(time.Millisecond), atomic.LoadInt32(&st.casCalls), atomic.LoadInt32(&st.casOK))
 			third.Unlock()
 			break
 		}
 		if it, err := st.ListKeys(bg, "*"); err == nil && !it.HasNext() {
-			res.bad = fmt.Sprintf("the record of the held lock is gone %v after it was acquired (lease %v) after isolated transient renewal errors; renewal calls=%d ok=%d", time.Since(t0).Round(time.Millisecond), lease, atomic.LoadInt32(&st.casCalls), atomic.LoadInt32(&st.casOK))
+			res.bad = fmt.Sprintf("the record of the held lock is gone %v after it was acquired (lease %v) after transient renewal errors (the storage answers again well within the lease); renewal calls=%d ok=%d", time.Since(t0).Round(time.Millisecond), lease, atomic.LoadInt32(&st.casCalls), atomic.LoadInt32(&st.casOK))
 			break
 		}
 		time.Sleep(lease / 50)
@@ -691,7 +703,7 @@ func runLockRT(ctx *Ctx) {
 	for _, sc := range []struct {
 		name string
 		f    func(time.Duration) rtResult
-	}{{"transients", rtTransientsScenario}, {"shared", rtSharedScenario}} {
+	}{{"transients", rtTransientsScenario}, {"burst", rtBurstScenario}, {"shared", rtSharedScenario}} {
 		rr := sc.f(lease)
 		if rr.bad != "" {
 			if r2 := sc.f(2 * lease); r2.bad == "" {
